@@ -45,6 +45,15 @@ std::vector<Scen> scenarios() {
             add("PrintBuffered(" + tn + "," + std::to_string(pb) + "," + std::to_string(fmt) + ")", prep, [pb, fmt](Ctx& c) { c.res_text = LIB(cJSON_PrintBuffered(c.trees[0], pb, fmt)); c.failed = !c.res_text; c.repr = c.res_text ? c.res_text : "NULL"; });
         add("PrintPreallocated(" + tn + ")", prep, [](Ctx& c) { static char buf[4096]; cJSON_bool ok = LIB(cJSON_PrintPreallocated(c.trees[0], buf, sizeof buf, 1)); c.failed = !ok; c.repr = ok ? buf : "false"; });
     }
+    // formatted prints in which the growth of the 256-byte buffer falls on every token in turn (key of every length around the boundary)
+    for (int L = 226; L <= 262; L++) {
+        auto prep = [L](Ctx& c) { std::string t = "{\"" + std::string((size_t)L, 'k') + "\":{\"n\":[1,2]},\"z\":\"" + std::string(20, 'v') + "\"}"; c.trees.push_back(P(t.c_str())); };
+        add("Print(key length " + std::to_string(L) + ")", prep, [](Ctx& c) { c.res_text = LIB(cJSON_Print(c.trees[0])); c.failed = !c.res_text; c.repr = c.res_text ? c.res_text : "NULL"; });
+        if (L % 4 == 0) add("PrintUnformatted(key length " + std::to_string(L) + ")", prep, [](Ctx& c) { c.res_text = LIB(cJSON_PrintUnformatted(c.trees[0])); c.failed = !c.res_text; c.repr = c.res_text ? c.res_text : "NULL"; });
+    }
+    // strings with many escapes (decoded text much shorter than the literal)
+    for (int n : { 1, 15, 16, 17, 40, 200 }) { std::string t = "[\""; for (int i = 0; i < n; i++) t += "\\u00e9\\n"; t += "\",{\"k"; for (int i = 0; i < n; i++) t += "\\t"; t += "\":1}]";
+        add("Parse(" + std::to_string(n) + " escapes)", none, [t](Ctx& c) { c.res_tree = LIB(cJSON_Parse(t.c_str())); c.failed = !c.res_tree; c.repr = wt(c.res_tree); }); }
     // ---- create
     add("CreateNull", none, [](Ctx& c) { c.res_tree = LIB(cJSON_CreateNull()); c.failed = !c.res_tree; c.repr = wt(c.res_tree); });
     add("CreateTrue", none, [](Ctx& c) { c.res_tree = LIB(cJSON_CreateTrue()); c.failed = !c.res_tree; c.repr = wt(c.res_tree); });
